@@ -299,6 +299,22 @@ def run(chk):
     def on_vec(op):
         r = ip._resolve_ref(wb, (op.get("copy") or op.get("move") or {}).get("l", -1)) if (op.get("copy") or op.get("move")) else None
         return r is not None and r[0] == vec_param and r[1] == ("*",) and not r[2]
+    # a writer that hands the output vector to a crate-local helper (the comment block extracted into a function of its own) is
+    # outside what this intraprocedural path-sum reconstructs: the writer-side clauses are then *undecided* - reported in the evidence,
+    # never alarmed on (benign round F, patch C11_1)
+    delegated = []
+    for bi, t in wb.calls():
+        path = t["callee"].get("resolved") or t["callee"].get("path") or ""
+        if path.endswith("append_to") or path.startswith(("std::", "core::", "alloc::", "<std::", "<alloc::", "<core::")):
+            continue
+        if any(on_vec(a) for a in t["args"] if (a.get("copy") or a.get("move"))) and any(x in f.bodies for x in ip.callee_ids(wb, t)):
+            delegated.append(path)
+    chk.cov["writer_delegates_output_to"] = sorted(set(delegated))
+    if delegated:
+        chk.sample("write_sauce_info hands its output vector to %s: R-SAUCE-AFFINE's writer clauses are undecided on this tree" % sorted(set(delegated)))
+    wfind = (lambda *a, **k: None) if delegated else chk.finding
+    wobl = (lambda *a, **k: None) if delegated else chk.obligation
+    wfloor = (lambda *a, **k: None) if delegated else chk.floor
     delta = {}
     unknown = []
     nappend = 0
@@ -359,10 +375,10 @@ def run(chk):
         if d is not None:
             delta[bi] = d
             nappend += 1
-    chk.floor("R-SAUCE-AFFINE", "append sites in write_sauce_info", nappend, 12)
+    wfloor("R-SAUCE-AFFINE", "append sites in write_sauce_info", nappend, 12)
     for bi, line, txt in unknown:
-        chk.obligation(False)
-        chk.finding("write_sauce_info|unknown-append|%s" % txt[:60], rule="R-SAUCE-AFFINE", where="%s:%s" % (wb.file, line), fn="write_sauce_info",
+        wobl(False)
+        wfind("write_sauce_info|unknown-append|%s" % txt[:60], rule="R-SAUCE-AFFINE", where="%s:%s" % (wb.file, line), fn="write_sauce_info",
                     what="bytes are appended to the output by a construct whose size is not statically known: %s" % txt)
     # loops: per-iteration amount must be path independent
     heads = wb.loop_heads()
@@ -383,9 +399,9 @@ def run(chk):
         loop_delta[h] = back
     writer_loop = [h for h in heads if any(delta.get(x) for x in loops[h])]
     ok_loop = len(writer_loop) == 1 and len(loop_delta[writer_loop[0]]) == 1
-    chk.obligation(ok_loop)
+    wobl(ok_loop)
     if not ok_loop:
-        chk.finding("write_sauce_info|comment-loop|%s" % sorted({v for h in writer_loop for v in loop_delta[h]}), rule="R-SAUCE-AFFINE", where="%s:%s" % (wb.file, wb.line),
+        wfind("write_sauce_info|comment-loop|%s" % sorted({v for h in writer_loop for v in loop_delta[h]}), rule="R-SAUCE-AFFINE", where="%s:%s" % (wb.file, wb.line),
                     fn="write_sauce_info", what="the comment loop does not append the same number of bytes on every iteration path: %s "
                     "(the count byte says how many 64-byte lines follow)" % {h: sorted(loop_delta[h]) for h in writer_loop})
     per_iter = next(iter(loop_delta[writer_loop[0]])) if ok_loop else None
@@ -448,9 +464,9 @@ def run(chk):
                 elif txt.endswith(".comments") and txt.startswith("&") and not any(w in txt for w in ("filter", "skip", "take", "step_by", "chain", "rev(")):
                     # and the loop's `next` is slice::Iter::next (not an adaptor's)
                     it_ok = all((tt["callee"].get("resolved") or "").startswith("<std::slice::Iter<") for tt in nxt)
-        chk.obligation(bool(nxt) and it_ok)
+        wobl(bool(nxt) and it_ok)
         if not (nxt and it_ok):
-            chk.finding("write_sauce_info|comment-loop-source", rule="R-SAUCE-AFFINE", where="%s:%s" % (wb.file, wb.line), fn="write_sauce_info",
+            wfind("write_sauce_info|comment-loop-source", rule="R-SAUCE-AFFINE", where="%s:%s" % (wb.file, wb.line), fn="write_sauce_info",
                         what="the loop that writes the comment block does not iterate over `comments`")
     # path sums over the DAG with the loop collapsed: sets of (const, k) = const + k * n * per_iter
     loop_blocks = set()
@@ -498,9 +514,9 @@ def run(chk):
     chk.sample("write_sauce_info appends: %s (const, uses comment loop) with %s bytes per comment" % (sorted(final_norm), per_iter))
     expect_w = {(129, 0), (134, 1)}
     okw = final_norm == expect_w and per_iter == 64
-    chk.obligation(okw)
+    wobl(okw)
     if not okw:
-        chk.finding("write_sauce_info|appended|%s|per-comment %s" % (sorted(final_norm), per_iter), rule="R-SAUCE-AFFINE", where="%s:%s" % (wb.file, wb.line), fn="write_sauce_info",
+        wfind("write_sauce_info|appended|%s|per-comment %s" % (sorted(final_norm), per_iter), rule="R-SAUCE-AFFINE", where="%s:%s" % (wb.file, wb.line), fn="write_sauce_info",
                     what="the writer appends %s bytes (+ %s per comment line) after the content; the reader cuts 129 bytes without comments and 134 + 64 n with n comment lines" % (sorted(final_norm), per_iter))
     # the count byte = comments.len()
     # the count byte: the u8 local that receives `comments.len() as u8`
@@ -548,9 +564,9 @@ def run(chk):
         lens = [v for v in vals if v.startswith("(len(") and v.endswith(" as u8)")]
         okc = bool(lens) and all(v == "0" or v in lens for v in vals) and len(set(lens)) == 1
         chk.sample("comment count byte: %s" % vals)
-    chk.obligation(okc)
+    wobl(okc)
     if not okc:
-        chk.finding("write_sauce_info|count-byte", rule="R-SAUCE-AFFINE", where="%s:%s" % (wb.file, wb.line), fn="write_sauce_info",
+        wfind("write_sauce_info|count-byte", rule="R-SAUCE-AFFINE", where="%s:%s" % (wb.file, wb.line), fn="write_sauce_info",
                     what="the comment count byte is not `comments.len() as u8` (or 0 without comments)")
     # ------------------------------------------------------------------ R-SAUCE-COUNT: every legal number of comment lines is written
     # where the count byte `comments.len() as u8` is computed the interval analysis must still allow 255 lines: a guard that turns
